@@ -212,7 +212,10 @@ def frame_sets(tier):
     return [dict(), dict(body_frame=False, stab_frame=True, wind_frame=False)]
 
 
-def compare(ck, lab_label, got, want, facts, mkfinding, world, tol=None):
+def compare(ck, lab_label, got, want, path, mkfinding, world, tol=None):
+    from symx.rel import cone_defs
+    base = list(path.ctx.assumptions) + list(path.ctx.pc)
+    facts = base
     keys_g, keys_w = set(got), set(want)
     ob = Obligation("%s key set" % lab_label, [], z3.BoolVal(keys_g == keys_w), meta={"finding": mkfinding, "got_only": sorted(keys_g - keys_w), "want_only": sorted(keys_w - keys_g)})
     ck.add([ob])
@@ -225,7 +228,7 @@ def compare(ck, lab_label, got, want, facts, mkfinding, world, tol=None):
             g, w_ = zexpr(SR(got[k])), zexpr(SR(want[k]))
             aw = z3.If(w_ >= 0, w_, -w_)
             goal = z3.And(g - w_ <= tol * aw, w_ - g <= tol * aw)
-        ck.add([Obligation("%s %s" % (lab_label, k), facts + cong, goal, meta={"finding": mkfinding})])
+        ck.add([Obligation("%s %s" % (lab_label, k), base + cone_defs(path.ctx, [goal]), goal, meta={"finding": mkfinding})])
     some = sorted(keys_g & keys_w)
     if some:
         k = some[len(some) // 2]
@@ -277,7 +280,7 @@ def harness(ck, which, kw, member="g5", rate_frame="body", tier="quick"):
 
         def mk(ob, which=which, kw=kw, member=member, rate_frame=rate_frame):
             return Finding("deriv", {"which": which, "kw": kw, "member": member, "rate_frame": rate_frame, "vals": model_vals(ob.model), "step": 0.5 if which != "damping" else 0.005}, ob.label, ob.model)
-        compare(ck, lab, v["got"], v["want"], p.facts(), mk, v["world"], tol=1e-12 if which == "union_default" else None)
+        compare(ck, lab, v["got"], v["want"], p, mk, v["world"], tol=1e-12 if which == "union_default" else None)
         if len(ck.samples) < 4:
             ks = sorted(v["got"])
             ck.sample({"harness": label, "n_keys": len(ks), "LLsolve_calls": len(v["world"].calls), "aero_records": len(v["world"].aero),
@@ -307,10 +310,13 @@ def main(tier, seed, only=None):
     if tier == "thorough":
         plan += [("damping", dict(body_frame=True, stab_frame=True, wind_frame=True), "stab"), ("damping", dict(body_frame=True, stab_frame=True, wind_frame=True), "wind"),
                  ("stability", {}, "stab"), ("union", dict(stab_frame=True), "body")]
+    tasks = []
     for which, kw, rf in plan:
         if only and which not in only:
             continue
-        harness(ck, which, kw, rate_frame=rf, tier=tier)
+        tasks.append(("%s/%s/%s" % (which, rf, kw), lambda c, which=which, kw=kw, rf=rf: harness(c, which, kw, rate_frame=rf, tier=tier)))
+    from symx.harness import run_parallel
+    run_parallel(ck, tasks)
     ck.bound(aircraft="family member g5 (wing + tail, aileron antisymmetric, elevator symmetric), N=2 per semispan, concrete geometry",
              state="body velocity, unit quaternion, position, body rates, wind vector, control inputs, step sizes: all symbolic",
              frames="%d output-frame selections; rate frames body/stab/wind" % len(fs), max_paths=12)
